@@ -213,11 +213,11 @@ def run(ctx):
             seen.add(key)
             todo.append(v)
     if todo:
-        mins = ctx.map("task_minimise", [{"op": v["scenario"]["op"], "variant": v["scenario"]["variant"], "invariant": v["invariant"]} for v in todo[:4]],
-                       budget_s=max(30.0, ctx.remaining()))
-        for (t, r), v in zip(mins, todo):
-            v["scenario"]["op"] = r["op"]
-        violations = todo + [v for v in violations if v not in todo]
+        mins = ctx.map("task_minimise", [{"op": v["scenario"]["op"], "variant": v["scenario"]["variant"], "invariant": v["invariant"], "idx": i}
+                                         for i, v in enumerate(todo[:4])], budget_s=120.0, force=True)
+        for (t, r) in mins:
+            todo[t["idx"]]["scenario"]["op"] = r["op"]
+    violations = todo
     coverage = {
         "evaluations": n_eval,
         "distinct_nontrivial": len(nontrivial),
